@@ -322,6 +322,8 @@ struct Dumper {
         if (!mr.empty()) o << ",\"mr\":[" << mr << "]";
         if (auto *MD = dyn_cast<CXXMethodDecl>(FD))
             if (!MD->isStatic() && !isa<CXXConstructorDecl>(MD) && MD->isConst()) o << ",\"cm\":1";
+        if (!isa<CXXConstructorDecl>(FD) && !FD->getReturnType().isNull() && !FD->getReturnType()->isVoidType() && !FD->getReturnType()->isDependentType())
+            o << ",\"rt\":" << typeOf(FD->getReturnType().getCanonicalType());
     }
 
     void emitExpr(std::ostringstream &o, const Expr *E) {
